@@ -82,11 +82,25 @@ func (g *gen) intExpr(d int) *E {
 			return c
 		}
 		return Var(g.intVar())
-	case 9:
-		return g.matchExpr(false, d-1)
 	default:
 		return Var(g.intVar())
 	}
+}
+
+// topInt / topStr: an expression that is not an operand. `match` is only written there:
+// the expression parser does not accept it inside parentheses (outside the modelled core).
+func (g *gen) topInt(d int) *E {
+	if g.r.Chance(12) {
+		return g.matchExpr(false, d)
+	}
+	return g.intExpr(d)
+}
+
+func (g *gen) topStr(d int) *E {
+	if g.r.Chance(12) {
+		return g.matchExpr(true, d)
+	}
+	return g.strExpr(d)
 }
 
 // writableInt: an int variable generated code may assign (not a counter, not the depth parameter).
@@ -127,7 +141,7 @@ func (g *gen) strExpr(d int) *E {
 		}
 		return g.strExpr(0)
 	default:
-		return g.matchExpr(true, d-1)
+		return g.strExpr(d - 1)
 	}
 }
 
@@ -217,9 +231,9 @@ func (g *gen) matchExpr(wantStr bool, d int) *E {
 
 func (g *gen) echo() *S {
 	if g.r.Chance(50) {
-		return Echo(g.tag(), g.intExpr(2), Str(" "))
+		return Echo(g.tag(), g.topInt(2), Str(" "))
 	}
-	return Echo(g.tag(), g.strExpr(2), Str(" "))
+	return Echo(g.tag(), g.topStr(2), Str(" "))
 }
 
 func (g *gen) assign() *S {
@@ -237,7 +251,7 @@ func (g *gen) assign() *S {
 		case 2:
 			return ExprS(Set(x, Bin(vh.Pick(g.r, []string{"add", "mul"}), g.operand(), g.operand()))) // VarFastAssign add/mul
 		default:
-			return ExprS(Set(x, g.intExpr(2)))
+			return ExprS(Set(x, g.topInt(2)))
 		}
 	case 4, 5:
 		x := g.writableInt()
@@ -257,7 +271,7 @@ func (g *gen) assign() *S {
 			if g.r.Bool() {
 				return ExprS(OpSet("cat", x, g.strExpr(1)))
 			}
-			return ExprS(Set(x, g.strExpr(2)))
+			return ExprS(Set(x, g.topStr(2)))
 		}
 	case 8:
 		if len(g.boolVars) > 0 {
@@ -317,9 +331,9 @@ func (g *gen) jump() *S {
 
 func (g *gen) ret() *S {
 	if g.cur.retStr {
-		return Ret(g.strExpr(2))
+		return Ret(g.topStr(2))
 	}
-	return Ret(g.intExpr(2))
+	return Ret(g.topInt(2))
 }
 
 func (g *gen) counter() int {
